@@ -5,7 +5,7 @@ CONSTANTS
   Fds = {1, 2}
   MaxConn = 2
   Rogue = {2}
-  Programs = {1}
+  Programs = {3, 12}
   SndCap = 100000
   EventsCap = 4
   LimitN = 20
@@ -14,10 +14,10 @@ CONSTANTS
   AllowFds = FALSE
   AllowFlush = FALSE
   EmitAtBound = TRUE
-  Pin1 = 0
-  Pin2 = 0
-  MaxMid = 0
-  HistMax = 12
-  AtomicPoll = TRUE
+  Pin1 = 12
+  Pin2 = 3
+  MaxMid = 1
+  HistMax = 8
+  AtomicPoll = FALSE
 INVARIANTS Emit PollOK TokensOK InterestsOK
 CHECK_DEADLOCK FALSE
